@@ -61,8 +61,8 @@ def run(ctx):
             for blk, t in errs:
                 ctx.requires("C14.G.literal-item-is-error", c, blk, "unsupported_format", [r"discr\(a2\)=Lit$"])
             inner = [x for x in ctx.closures_of(c)]
-            okl = any([e for _, e in ctx.ret_exprs(x)] and all(re.match(r"^darling_core::error::Error::at_path\(a2, ", e) for _, e in ctx.ret_exprs(x)) for x in inner)
-            ctx.ob("C14.G.value-error-located-under-key", c.key, "map_err(|e| e.at_path(&path))", okl, "closures: %s" % [[e for _, e in ctx.ret_exprs(x)] for x in inner])
+            okl = any(ctx.ret_values(x) and all(re.match(r"^darling_core::error::Error::at_path\(a2, ", e) for _, e in ctx.ret_exprs(x)) for x in inner)
+            ctx.ob("C14.G.value-error-located-under-key", c.key, "map_err(|e| e.at_path(&path))", okl, "closures: %s" % [ctx.ret_values(x) for x in inner])
         # ---- main loop
         handles = ctx.find_calls(f, r"^darling_core::error::Accumulator::handle$")
         pushes = ctx.find_calls(f, r"^darling_core::error::Accumulator::push$")
@@ -116,7 +116,7 @@ def run(ctx):
         ok = not any(n in reach for n in nexts) and not any(b2 in reach for b2, _ in fw)
         ctx.ob("C14.P.seen-recorded-on-every-path", f.key, "contains(..) … seen_keys.insert(key)", ok, "every path from the seen test to the next iteration (or the exit) must record the key, including the failed-value path")
         # result
-        rs = [e for _, e in ctx.ret_exprs(f)]
+        rs = ctx.ret_values(f)
         ok = len(rs) == 1 and rs[0].startswith("darling_core::error::Accumulator::finish_with(darling_core::error::Error::accumulator(), ")
         ctx.ob("C14.G.result-through-accumulator", f.key, "errors.finish_with(map)", ok, "returns %s" % [r[:140] for r in rs])
         seqs[(key, kind)] = norm_seq(ctx, f)
@@ -138,11 +138,11 @@ def run(ctx):
         ctx.ob("C14.G.ident-key-shape", f.key, "one Ok", len(oks) == 1, "%d" % len(oks))
     f = ctx.fn("<alloc::string::String as darling_core::from_meta::KeyFromPath>::from_path")
     if f:
-        rs = [e for _, e in ctx.ret_exprs(f)]
+        rs = ctx.ret_values(f)
         ctx.ob("C14.G.string-key", f.key, "Ok(path_to_string(path))", rs == ["core::result::Result::Ok{darling_core::util::path_to_string::path_to_string(a1)}"], "%s" % rs)
     f = ctx.fn("<syn::path::Path as darling_core::from_meta::KeyFromPath>::from_path")
     if f:
-        rs = [e for _, e in ctx.ret_exprs(f)]
+        rs = ctx.ret_values(f)
         ctx.ob("C14.G.path-key", f.key, "Ok(path.clone())", len(rs) == 1 and re.match(r"^core::result::Result::Ok\{.*clone\(a1\)\}$", rs[0]) is not None, "%s" % rs)
     return ctx.finish(
         explanation="Guard/pairing rules on the %d map instantiations and their closures; callee-sequence agreement between them; KeyFromPath impls." % len(seqs),
